@@ -224,6 +224,7 @@ func oracles(o *corr.Out, sc *scenario, w *World) {
 			}
 		}
 		var cur []byte
+		var curID drpcwire.ID
 		curActive := false
 		bad := ""
 		for _, ob := range sc.obs {
@@ -244,8 +245,10 @@ func oracles(o *corr.Out, sc *scenario, w *World) {
 						curActive = false
 						continue
 					}
-					if !curActive {
-						cur, curActive = nil, true
+					// frames of one message share an id; a message that was cut short (its writer failed or
+					// was cancelled mid-way) is abandoned when a frame with another id follows, as in the reader
+					if !curActive || fr.ID != curID {
+						cur, curActive, curID = nil, true, fr.ID
 					}
 					cur = append(cur, fr.Data...)
 					if fr.Done {
